@@ -486,7 +486,7 @@ class EIG(BaseRoutine):
             system.TDS.init()
             system.TDS.itm_step()
 
-        elif system.dae.n == 0:
+        if system.dae.n == 0:
             logger.error('No dynamic model. Eig analysis will not continue.')
             status = False
 
